@@ -83,7 +83,7 @@ def gen_files(ctx, n_files):
     out = []
     forced = [dict(n_slices=1, kind="Cell"), dict(n_slices=2, kind="CumulativeCell"),
               dict(n_slices=2, kind="IncrementalCell"), dict(n_slices=3), dict(n_slices=4)]
-    cap = 2000 if ctx.quick else 2600
+    cap = 1800 if ctx.quick else 2600
     tries = 0
     while len(out) < n_files and tries < n_files * 40:
         kw = forced[len(out)] if len(out) < len(forced) else {}
@@ -118,7 +118,7 @@ def run(ctx):
     B.raise_stack_limit()
     t0 = time.time()
     ctx.rule = ("files written by /repo for triangles from bin_common.gen_triangle (1-4 slices, three cell "
-                "classes, all value/detail types, non-ASCII strings, <=24 keys, file size <= 2 KB quick / "
+                "classes, all value/detail types, non-ASCII strings, <=24 keys, file size <= 1.8 KB quick / "
                 "2.6 KB (some 5 KB) thorough); EVERY byte offset n < len(file) of every file, both flavours; "
                 "non-trivial = file with >= 2 cells (every file hits error branches); F9 probed with a 137-key file")
     ctx.audit_tree([f for f in B.MY_COQ_FILES if (B.Path("/verif/coq") / f).exists()])
